@@ -98,7 +98,14 @@ class P:
                         ("cat <<-E | # c\n\tb\n\tE\nx\n", [("<<-", "\tb\n", "\tE", False)]), ("cat <<E | # c1\n# not a comment\nE\nb\n", [("<<", "# not a comment\n", "E", False)]),
                         ("if a <<E; then # c\nbody\nE\n:; fi\n", [("<<", "body\n", "E", False)]), ("a <<E & # c\nbody\nE\n", [("<<", "body\n", "E", False)]),
                         ("a <<E; # c\nbody\nE\n", [("<<", "body\n", "E", False)]), ("( a <<E # c\nbody\nE\n)\n", [("<<", "body\n", "E", False)]),
-                        ("while a <<E; do # c\nbody\nE\nb; done\n", [("<<", "body\n", "E", False)])]:
+                        ("while a <<E; do # c\nbody\nE\nb; done\n", [("<<", "body\n", "E", False)]),
+                        # a line continuation after an operator that allows a line break: the bodies begin after the newline that ends the
+                        # continued command line
+                        ("cat <<E |\\\ncat\nbody\nE\n", [("<<", "body\n", "E", False)]), ("cat <<E | \\\n  cat\nbody\nE\n", [("<<", "body\n", "E", False)]),
+                        ("cat <<E && \\\n\tb\nx\nE\n", [("<<", "x\n", "E", False)]), ("a <<A <<'B' ||\\\nb\n1\nA\n$2\nB\n", [("<<", "1\n", "A", False), ("<<", "$2\n", "B", True)]),
+                        ("{ cat <<E &&\\\n echo ok\nbody\nE\n}\n", [("<<", "body\n", "E", False)]), ("case x in a) cat <<E ;; \\\n esac\nbody\nE\n", [("<<", "body\n", "E", False)]),
+                        ("cat <<E | \\\n\\\n cat\nb\nE\n", [("<<", "b\n", "E", False)]), ("cat <<-E |\\\n cat\n\tb\n\tE\n", [("<<-", "\tb\n", "\tE", False)]),
+                        ("cat <<E | \\\n # c\nb\nE\ncat\n", [("<<", "b\n", "E", False)])]:
             e = ";".join("|".join(hx(x) for x in (op, body, dline, "1" if q else "0")) for op, body, dline, q in hd)
             cases.append("%s\t%s" % (hx(src), e))
         # the literal-body reader model (Lex/Heredoc.v) against the implementation: quoted delimiters
